@@ -10,8 +10,9 @@
    from the repository's current source. *)
 From Coq Require Import String ZArith List Bool Arith.
 From SK Require Import Model.Base Model.Skel Model.Stm Model.Pipeline
-     Model.PipelineSk Model.SequenceSk Spec.Pipeline
+     Model.PipelineSk Model.SequenceSk Model.CallCount Spec.Pipeline
      Proofs.Pipeline Proofs.PipelineSkel Proofs.PipelineEx Proofs.PipelineSk
+     Proofs.CallCount
      Gen.Params Gen.Skeleton Gen.SkelTree Gen.XPipeline.
 Import ListNotations.
 Open Scope string_scope.
@@ -398,6 +399,99 @@ Proof.
 Qed.
 
 (* ------------------------------------------------------------------------
+   The task a worker runs is a function of ITS file only.  The model's task t
+   is given by P[t] alone; in the code the SearchTask (with the definition
+   objects) is pickled in whatever state the parent left them, so this needs:
+   _run_search resets the sequence definitions itself, before reading the
+   first line *)
+Theorem C02_worker_search_resets_definitions :
+  search_resets_defs_first sk_run_search = true.
+Proof. vm_compute. reflexivity. Qed.
+
+Theorem C02_worker_search_resets_meaning : forall sk,
+  search_resets_defs_first sk = true ->
+  exists pre post,
+    sk = (pre ++ Call "enumerate_lines" :: post)%list /\
+    In (Call "seq_reset") pre /\ ~ In (Call "sequence_search") pre /\
+    ~ In (Call "simple_search") pre /\ ~ In (Call "enumerate_lines") pre.
+Proof. exact search_resets_defs_first_sound. Qed.
+
+(* ------------------------------------------------------------------------
+   ThreadManager (collector / info threads) and SearchTaskResultsManager *)
+
+(* the three methods, interpreted on the extracted trees with the source's
+   own constants and test, ARE the model: __init__ leaves a cleared event and
+   an unstarted thread, start() starts it once, stop() of a running manager
+   sets the event and THEN joins (a join before the set would never return),
+   stop() of a stopped one does nothing *)
+Theorem C02_thread_manager_init : forall st,
+  run_tm tm_init_running [] tk_tm_init st
+  = Some (mkTM false false true false (tm_sets st) (tm_joins st) []).
+Proof. intros st. exact (tm_init_sound tk_tm_init st eq_refl). Qed.
+
+Theorem C02_thread_manager_start : forall st,
+  run_tm tm_start_running [] tk_tm_start st = tm_model_start st.
+Proof. intros st. exact (tm_start_sound tk_tm_start st eq_refl). Qed.
+
+Theorem C02_thread_manager_stop : forall st,
+  run_tm tm_stop_running (tm_stop_guards tm_stop_test) tk_tm_stop st
+  = tm_model_stop st.
+Proof.
+  intros st. apply (tm_stop_sound tk_tm_stop tm_stop_test st eq_refl).
+  intros b. reflexivity.
+Qed.
+
+(* _run_mp calls results_thread.stop() before the purge and again in its
+   `finally`: the second call is a no-op; over a manager's life there is one
+   set and one join *)
+Theorem C02_thread_manager_stop_idempotent : forall st st1,
+  tm_model_stop st = Some st1 -> tm_model_stop st1 = Some st1.
+Proof. exact tm_stop_twice. Qed.
+
+Theorem C02_thread_manager_lifecycle : forall st1 st2,
+  tm_model_start tm_new = Some st1 -> tm_model_stop st1 = Some st2 ->
+  st2 = mkTM false true true false 1 1 [].
+Proof. exact tm_lifecycle. Qed.
+
+(* on EVERY path through stop(), exceptions included: at most one set and
+   one join *)
+Theorem C02_thread_manager_stop_once : forall t,
+  trl tk_tm_stop t ->
+  (count (is_call "event_set") t <= 1)%nat /\
+  (count (is_call "thread_join") t <= 1)%nat.
+Proof.
+  intros t H. split; apply (count_bounded_list _ _ _ _ H);
+    vm_compute; reflexivity.
+Qed.
+
+(* the thread runs its function with the manager's own event as first
+   argument; _run_mp's results thread runs _get_results(event, results,
+   results_queue) on the run's collection and on the queue created with
+   RESULTS_QUEUE_SIZE, and the purge works on the same two objects: the
+   [stop] flag, collection and queue of C02_collector_iteration_is_model are
+   those of StartPurge / PurgeStep *)
+Theorem C02_collector_thread_wiring :
+  tm_thread_runs_func_with_own_event = true /\ run_mp_collector_wired = true.
+Proof. split; reflexivity. Qed.
+
+(* SearchTaskResultsManager hands back what it was given and refuses a queue
+   AND a collection; worker tasks get the queue only (put_result's direct
+   test is false: C02_put_result_is_Put / _is_Drop apply), in-process tasks
+   the collection only (C02_put_result_direct applies) *)
+Theorem C02_results_manager_modes :
+  rm_properties_are_arguments = true /\
+  (forall q c, rm_conflict_test q c = q && c) /\
+  run_mp_manager_mode = (true, false) /\
+  run_single_manager_mode = (false, true) /\
+  rm_conflict_test (fst run_mp_manager_mode) (snd run_mp_manager_mode)
+    = false /\
+  rm_conflict_test (fst run_single_manager_mode)
+                   (snd run_single_manager_mode) = false /\
+  put_direct_test (snd run_mp_manager_mode) = false /\
+  put_direct_test (snd run_single_manager_mode) = true.
+Proof. repeat split; intros; reflexivity. Qed.
+
+(* ------------------------------------------------------------------------
    Non-vacuity *)
 
 (* a 2-file run with capacity 1 (two Puts meet a full queue) that returns;
@@ -458,3 +552,8 @@ Print Assumptions C02_purge_iteration_is_model.
 Print Assumptions C02_collector_iteration_is_model.
 Print Assumptions C02_put_result_is_Put.
 Print Assumptions C02_put_result_is_Drop.
+Print Assumptions C02_worker_search_resets_definitions.
+Print Assumptions C02_thread_manager_stop.
+Print Assumptions C02_thread_manager_stop_once.
+Print Assumptions C02_collector_thread_wiring.
+Print Assumptions C02_results_manager_modes.
